@@ -2,12 +2,17 @@
 # Run ./check <ID> quick against a *scratch copy* of /repo with a patch applied, without
 # disturbing /repo (other work may be building against it). Usage:
 #   tools/mutcheck.sh <patch.diff> <ID> [tier]
-# Uses /tmp/vscratch (a copy of /verif whose harness points at /tmp/vscratch-repo).
+# Uses one of three scratch slots /tmp/vscratch-<k> (+ /tmp/vscratch-repo-<k>), each with its own
+# cargo target dir; a slot is held under flock for the duration of the run.
 set -u
-# one run at a time: the scratch copies and their cargo target dir are shared between invocations
-exec 9>/tmp/vscratch.lock; flock 9
 PATCH="$(readlink -f "$1")"; ID="$2"; TIER="${3:-quick}"
-S=/tmp/vscratch; R=/tmp/vscratch-repo
+SLOT=""
+for k in 0 1 2; do
+  exec 9>/tmp/vscratch-$k.lock
+  if flock -n 9; then SLOT=$k; break; fi
+done
+if [ -z "$SLOT" ]; then exec 9>/tmp/vscratch-0.lock; flock 9; SLOT=0; fi
+S=/tmp/vscratch-$SLOT; R=/tmp/vscratch-repo-$SLOT
 mkdir -p $S
 rsync -a --delete --exclude .cache --exclude .git --exclude replays --exclude evidence /verif/ $S/
 mkdir -p $S/evidence $S/replays
@@ -17,5 +22,5 @@ sed -i "s#path = \"/repo\"#path = \"$R\"#" $S/harness/Cargo.toml
 sed -i "s#/verif/.cache/target#$S/.cache/target#" $S/harness/.cargo/config.toml
 cd $S && RV_REPO=$R ./check "$ID" "$TIER"
 rc=$?
-echo "mutcheck: exit $rc"
+echo "mutcheck: exit $rc (slot $SLOT)"
 exit $rc
